@@ -16,7 +16,8 @@ Record rstep := {
   r_didx : list (Z * Z);
   r_seq : Z;
   r_prm : params;
-  r_probes : list (mode * via * Z * probe * pres)
+  r_probes : list (mode * via * Z * probe * pres);   (* calls made after the step (same block or later) *)
+  r_pre : list (mode * via * Z * probe * pres)       (* calls made in the same block BEFORE the step's transaction *)
 }.
 
 Record rcase := {
@@ -82,8 +83,9 @@ Definition state_agrees (s : state) (x : rstep) : bool :=
   map_eqb cmeta_eqb (metas s) (r_metas x) && map_eqb Z.eqb (didx s) (r_didx x)
   && (mseq s =? r_seq x) && params_eqb (prm s) (r_prm x).
 
-Definition probes_agree (c : rcase) (s : state) (x : rstep) : bool :=
-  forallb (fun q => match q with (md, v, a, p, o) => pres_eqb (probe_via (rc_hrp c) md v s a p) o end) (r_probes x).
+Definition probes_agree_on (c : rcase) (s : state) (l : list (mode * via * Z * probe * pres)) : bool :=
+  forallb (fun q => match q with (md, v, a, p, o) => pres_eqb (probe_via (rc_hrp c) md v s a p) o end) l.
+Definition probes_agree (c : rcase) (s : state) (x : rstep) : bool := probes_agree_on c s (r_probes x).
 
 Definition step_model (c : rcase) (s : state) (k : skind) : state * res :=
   match k with
@@ -96,7 +98,7 @@ Fixpoint first_bad (c : rcase) (s : state) (i : nat) (l : list rstep) : option n
   | [] => None
   | x :: r =>
       let '(s', o) := step_model c s (r_kind x) in
-      if res_eqb o (r_res x) && state_agrees s' x && probes_agree c s' x
+      if res_eqb o (r_res x) && state_agrees s' x && probes_agree c s' x && probes_agree_on c s (r_pre x)
       then first_bad c s' (S i) r
       else Some i
   end.
